@@ -31,6 +31,7 @@ func collect(repo string, f *facts) {
 	stopFacts(f)
 	orderFacts(f)
 	e2eFacts(f)
+	flushFacts(f)
 }
 
 // ---- C16: Must… / panic sites in constructors ----
@@ -1527,4 +1528,106 @@ func e2eFacts(f *facts) {
 		})
 	}
 	f.strs["e2e_recovery_scans"] = rs
+}
+
+// ---- C08 flush policy: util/netconnwrapper.go Read, tcplinelistener.go runConnection ----
+func flushFacts(f *facts) {
+	f.note["flush_wrapper_read"] = "NetConnWrapper.Read: guard, renewal condition, new deadline, stored deadline (in source order)"
+	var wr []string
+	if fd := fn("util/netconnwrapper.go", "Read", "NetConnWrapper"); fd != nil {
+		inspect(fd.Body, func(n ast.Node) bool {
+			switch x := n.(type) {
+			case *ast.IfStmt:
+				if x.Init != nil {
+					wr = append(wr, "init "+src(x.Init))
+				}
+				wr = append(wr, "if "+src(x.Cond))
+			case *ast.AssignStmt:
+				wr = append(wr, src(x))
+			case *ast.ReturnStmt:
+				wr = append(wr, src(x))
+			}
+			return true
+		})
+	}
+	f.strs["flush_wrapper_read"] = wr
+	f.note["flush_wrapper_max"] = "WrapNetConn: readTimeoutMin / readTimeoutMax initialisers"
+	var mx []string
+	if fd := fn("util/netconnwrapper.go", "WrapNetConn", ""); fd != nil {
+		inspect(fd.Body, func(n ast.Node) bool {
+			if kv, ok := n.(*ast.KeyValueExpr); ok {
+				switch src(kv.Key) {
+				case "readTimeoutMin", "readTimeoutMax", "readDeadline":
+					mx = append(mx, src(kv.Key)+": "+src(kv.Value))
+				}
+			}
+			return true
+		})
+	}
+	f.strs["flush_wrapper_max"] = mx
+	f.note["flush_listener_reader"] = "tcpLineListener.createConnectionReader: the wrapper's timeouts"
+	var rd []string
+	if fd := fn("input/tcplistener/tcplinelistener.go", "createConnectionReader", "tcpLineListener"); fd != nil {
+		inspect(fd.Body, func(n ast.Node) bool {
+			if c, ok := n.(*ast.CallExpr); ok && src(c.Fun) == "util.WrapNetConn" {
+				rd = append(rd, src(c))
+			}
+			return true
+		})
+	}
+	f.strs["flush_listener_reader"] = rd
+	// the read loop: every branch that flushes, with the statements of that branch (logging left out)
+	f.note["flush_listener_loop"] = "tcpLineListener.runConnection read loop: conditions and non-logging statements of the successful-read and timeout branches"
+	var lp []string
+	if fd := fn("input/tcplistener/tcplinelistener.go", "runConnection", "tcpLineListener"); fd != nil {
+		var loop *ast.ForStmt
+		inspect(fd.Body, func(n ast.Node) bool {
+			if fs, ok := n.(*ast.ForStmt); ok && loop == nil && fs.Cond == nil {
+				loop = fs
+			}
+			return true
+		})
+		var walk func(prefix string, st ast.Stmt)
+		walk = func(prefix string, st ast.Stmt) {
+			switch x := st.(type) {
+			case *ast.IfStmt:
+				head := prefix + "if "
+				if x.Init != nil {
+					head += src(x.Init) + "; "
+				}
+				lp = append(lp, head+src(x.Cond))
+				for _, b := range x.Body.List {
+					walk(prefix+"  ", b)
+				}
+				if x.Else != nil {
+					lp = append(lp, prefix+"else")
+					if eb, ok := x.Else.(*ast.BlockStmt); ok {
+						for _, b := range eb.List {
+							walk(prefix+"  ", b)
+						}
+					} else {
+						walk(prefix+"  ", x.Else)
+					}
+				}
+			case *ast.ExprStmt:
+				t := src(x)
+				if strings.HasPrefix(t, "connLogger.") {
+					return
+				}
+				lp = append(lp, prefix+t)
+			default:
+				lp = append(lp, prefix+src(st))
+			}
+		}
+		if loop != nil {
+			for _, st := range loop.Body.List {
+				// only up to and including the timeout branch; error handling is C17/C18 territory
+				walk("", st)
+				if is, ok := st.(*ast.IfStmt); ok && strings.Contains(src(is.Cond), "IsNetworkTimeout") {
+					break
+				}
+			}
+		}
+	}
+	f.strs["flush_listener_loop"] = lp
 }
